@@ -148,7 +148,9 @@ class Gen:
         return t
 
     def bad_yaml(self):
-        return self.r.choice(['a: [1, 2', 'a: b: c: d', '\t- x\n\t\ty', 'key: "unterminated', '{a: 1', 'a:\n  - b\n c'])
+        return self.r.choice(['a: [1, 2', 'a: b: c: d', '\t- x\n\t\ty', 'key: "unterminated', '{a: 1', 'a:\n  - b\n c',
+                              # syntactically fine, rejected when decoded: undefined aliases, a scalar violating its tag
+                              'settings: *bsae\n', 'a: &x 1\nb: *y\n', '- *second\n', 'ok: 1\n---\nlater: *nowhere\n', 'enabled: !!bool maybe\n'])
 
 
 def cfg_line(n, dir_rel='snaps', filename=None, ext=None, update='none', jsonopt=None):
